@@ -733,6 +733,12 @@ func propC18(run *Run, n int) {
 	run.rule = "v1 (package lib): random (a, b) over key pools with integer-looking keys (0, 1, 10, 01, -1, …) and keys needing pointer escaping (a/b, m~n, empty, ~1, …), objects and arrays nested in each other; (1) list mode: d = a.Diff(b) -> RenderPatch -> RFC 6902 evaluation on a, and ReadPatchString -> Patch on a; (2) merge mode (null-free, a not Equal b) x {MERGE, MERGE+SetPrecision(0), SET+MERGE, MULTISET+MERGE}: RenderMerge -> RFC 7386 MergePatch on a, and ReadMergeString -> Patch on a; non-trivial = the diff has at least one hunk; distinct = distinct (mode, a, b)"
 	r := NewRng(run.Seed)
 	metas := c18MergeMetas()
+	// arrays beyond a million elements (an index of seven digits): one case per run, two more in the thorough tier
+	addC18LargeIndexCase(run, 1000003+r.Intn(5), []int{999999, 1000001}, -1, r.Chance(1, 2))
+	if run.Tier == "thorough" {
+		addC18LargeIndexCase(run, 1000010, []int{3}, 1000002, true)
+		addC18LargeIndexCase(run, 2097160, []int{1048576, 2097152}, 2097158, false)
+	}
 	for i := 0; i < n; i++ {
 		cfg := c18Cfg(r)
 		if r.Chance(3, 5) {
